@@ -29,6 +29,57 @@ pub(crate) mod ntt;
 mod simple;
 mod toom_3;
 
+/// Verification hooks (only with `--cfg dashu_verif`): direct entries to the
+/// individual multiplication algorithms, bypassing the size thresholds.
+#[cfg(dashu_verif)]
+pub mod verif_algos {
+    use super::*;
+    pub const THRESHOLD_SIMPLE: usize = super::THRESHOLD_SIMPLE;
+    pub const THRESHOLD_KARATSUBA: usize = super::THRESHOLD_KARATSUBA;
+    pub const KARATSUBA_MIN_LEN: usize = karatsuba::MIN_LEN;
+    pub const TOOM_3_MIN_LEN: usize = toom_3::MIN_LEN;
+
+    pub fn simple(c: &mut [Word], sign: Sign, a: &[Word], b: &[Word], m: &mut Memory) -> SignedWord {
+        simple::add_signed_mul(c, sign, a, b, m)
+    }
+    pub fn simple_same_len(
+        c: &mut [Word],
+        sign: Sign,
+        a: &[Word],
+        b: &[Word],
+        m: &mut Memory,
+    ) -> SignedWord {
+        simple::add_signed_mul_same_len(c, sign, a, b, m)
+    }
+    pub fn karatsuba_layout(n: usize) -> Layout {
+        karatsuba::memory_requirement_up_to(n)
+    }
+    pub fn karatsuba(c: &mut [Word], sign: Sign, a: &[Word], b: &[Word], m: &mut Memory) -> SignedWord {
+        karatsuba::add_signed_mul(c, sign, a, b, m)
+    }
+    pub fn karatsuba_same_len(
+        c: &mut [Word],
+        sign: Sign,
+        a: &[Word],
+        b: &[Word],
+        m: &mut Memory,
+    ) -> SignedWord {
+        karatsuba::add_signed_mul_same_len(c, sign, a, b, m)
+    }
+    pub fn toom_3_layout(n: usize) -> Layout {
+        toom_3::memory_requirement_up_to(n)
+    }
+    pub fn toom_3_same_len(
+        c: &mut [Word],
+        sign: Sign,
+        a: &[Word],
+        b: &[Word],
+        m: &mut Memory,
+    ) -> SignedWord {
+        toom_3::add_signed_mul_same_len(c, sign, a, b, m)
+    }
+}
+
 /// Multiply a word sequence by a `Word` in place.
 ///
 /// Returns carry.
